@@ -11,10 +11,10 @@ open Ucan Ucan.GoM
 variable {D C S L A : Type} [DecidableEq D]
 
 theorem Inv_executionAllowed_order
-    (extLoad : Gen.InvTok D C → L → GoM (List (Gen.DlgTok D S)))
-    (extProofs extTime : Gen.InvTok D C → List (Gen.DlgTok D S) → GoM Unit)
-    (extArgs : Gen.InvTok D C → List (Gen.DlgTok D S) → A → GoM Unit)
-    (g : Gen.InvTok D C) (loader : L) (a : A) :
+    (extLoad : Gen.InvTok D C A → L → GoM (List (Gen.DlgTok D S)))
+    (extProofs extTime : Gen.InvTok D C A → List (Gen.DlgTok D S) → GoM Unit)
+    (extArgs : Gen.InvTok D C A → List (Gen.DlgTok D S) → A → GoM Unit)
+    (g : Gen.InvTok D C A) (loader : L) (a : A) :
     Gen.Inv_executionAllowed_shell extLoad extProofs extTime extArgs g loader a =
       (extLoad g loader >>= fun ds =>
         extProofs g ds >>= fun _ =>
@@ -34,10 +34,10 @@ theorem Inv_executionAllowed_order
 
 /-- nil exactly when the proofs load and all three stages return nil on them -/
 theorem Inv_executionAllowed_ok_iff
-    (extLoad : Gen.InvTok D C → L → GoM (List (Gen.DlgTok D S)))
-    (extProofs extTime : Gen.InvTok D C → List (Gen.DlgTok D S) → GoM Unit)
-    (extArgs : Gen.InvTok D C → List (Gen.DlgTok D S) → A → GoM Unit)
-    (g : Gen.InvTok D C) (loader : L) (a : A) :
+    (extLoad : Gen.InvTok D C A → L → GoM (List (Gen.DlgTok D S)))
+    (extProofs extTime : Gen.InvTok D C A → List (Gen.DlgTok D S) → GoM Unit)
+    (extArgs : Gen.InvTok D C A → List (Gen.DlgTok D S) → A → GoM Unit)
+    (g : Gen.InvTok D C A) (loader : L) (a : A) :
     Gen.Inv_executionAllowed_shell extLoad extProofs extTime extArgs g loader a = .ok () ↔
       ∃ ds, extLoad g loader = .ok ds ∧ extProofs g ds = .ok () ∧ extTime g ds = .ok () ∧ extArgs g ds a = .ok () := by
   rw [Inv_executionAllowed_order]
